@@ -57,6 +57,61 @@ INNER = """let mut ii__: usize = 0;
                 ii__ += 1;"""
 
 
+DRIVER_LOOP_INV = """                    invariant
+                        forall|k: int| 0 <= k < method.params@.len() ==> ty_wf(self, &(#[trigger] method.params@[k]).ty),
+                        errors.errors@.len() >= old(errors).errors@.len(),
+                        forall|k: int| 0 <= k < old(errors).errors@.len() ==> errors.errors@[k] == old(errors).errors@[k],
+                        (errors.errors@.len() > old(errors).errors@.len())
+                            == ((method.param_self matches Some(ps) && ty_viol(self, &self_as_type(ps.ty), method)) || params_viol_upto(self, method, it.index@ as int)),"""
+
+
+def build_driver_fragment(vf, src):
+    """E15: the statements of TypeContext::validate (per method) between the elided-lifetime early exit and the return-type check:
+    which INPUTS are validated.  Anchors: the `if failed { .. continue; }` block before, `method.output.with_contained_types(` after."""
+    it = src.item("impl TypeContext::validate", "fn")
+    cls = it.get("closures", [])
+    if len(cls) != 2:
+        raise Undecided("anchor-lost", f"TypeContext::validate: expected 2 closures (elided-lifetime check, return-type check), found {len(cls)}")
+    body = src.bytes.decode() if isinstance(src.bytes, bytes) else src.bytes
+    seg0 = cls[0]["end"]
+    m = re.compile(r"if failed \{").search(body, seg0)
+    if not m or m.start() > cls[1]["start"]:
+        raise Undecided("anchor-lost", "TypeContext::validate: `if failed { .. continue; }` not found")
+    from rsrc import match_close
+    a = match_close(body, m.end() - 1) + 1
+    tail = body[a:cls[1]["start"]]
+    m2 = re.search(r"method\.output\.with_contained_types\(\s*$", tail)
+    if not m2:
+        raise Undecided("anchor-lost", "TypeContext::validate: `method.output.with_contained_types(|out_ty| ..)` not found after the input checks")
+    b = a + m2.start()
+    loops = [l for l in it.get("loops", []) if a <= l["start"] < b]
+    frag = {"path": it["path"] + "#input checks (between `if failed` and the return-type check)", "kind": "stmt", "start": a, "after_attrs": a, "end": b, "loops": loops}
+    p = Piece(src, frag)
+    p.expect_loops(1)
+    if src.slice(*loops[0]["expr"]).strip() != "&method.params":
+        raise Undecided("anchor-lost", "TypeContext::validate: the parameter loop is no longer `for param in &method.params`")
+    p.replace("E7", loops[0]["expr"][0], loops[0]["expr"][1], "method.params.iter()", "`for x in &vec` spelled `vec.iter()`")
+    p.loop_spec(0, DRIVER_LOOP_INV, iter_name="it")
+    org = {"file": F, "item": frag["path"], "line": src.line_of(a), "end_line": src.line_of(b)}
+    vf.add(f"""    // E15: statement range of TypeContext::validate (body of the per-method loop) as a function of what it reads.
+    // Every INPUT of the method - the self parameter included - is checked for bounds implied by its type's definition.
+    pub fn validate_inputs_fragment(&self, errors: &mut ErrorStore, method: &hir::Method)
+        requires
+            method.param_self matches Some(ps) ==> ty_wf(self, &self_as_type(ps.ty)),
+            forall|k: int| 0 <= k < method.params@.len() ==> ty_wf(self, &(#[trigger] method.params@[k]).ty),
+        ensures {CANARY}
+            final(errors).errors@.len() >= old(errors).errors@.len(),
+            forall|k: int| 0 <= k < old(errors).errors@.len() ==> final(errors).errors@[k] == old(errors).errors@[k],
+            (final(errors).errors@.len() > old(errors).errors@.len())
+                == ((method.param_self matches Some(ps) && ty_viol(self, &self_as_type(ps.ty), method)) || params_viol_upto(self, method, method.params@.len() as int)),
+    {{
+""", origin=org)
+    vf.add(p.render(), origin=org, edits=p.log)
+    vf.add("\n    }\n", origin=org)
+    vf.functions.append({"path": frag["path"], "file": F, "line": src.line_of(a), "end_line": src.line_of(b), "engine": "verus", "mode": "verus (statement range, E15)", "bound": "none"})
+    vf.expected.append("validate_inputs_fragment")
+
+
 def build(tier):
     vf = VerusFile(NAME)
     src = Src(F)
@@ -101,17 +156,19 @@ def build(tier):
     p.fn("E5", rule_panics, why="panic sites become obligations")
     p.contract(CONTRACT.replace("/*CANARY*/", CANARY))
     vf.add_piece(p, expected="validate_ty_in_method")
+    build_driver_fragment(vf, src)
     vf.add("}\n")
     vf.add(vhelp.FOOTER)
     vf.expected += ["lemma_any_viol_next_inner", "__contains"]
     return vf
 
 
-CANARY_FUNCTIONS = ["validate_ty_in_method"]
+CANARY_FUNCTIONS = ["validate_ty_in_method", "validate_inputs_fragment"]
 ASSUMPTIONS = [
     "E7w: both `for` loops desugared to index loops (index advanced at body start) because the bodies use `continue`; LinkedLifetimes::lifetimes_all() carried as the Vec of its items (abstract: link.all), def_to_use abstract with the precondition that the def lifetime has a use-site counterpart (linked_wf: what LinkedLifetimes::new's debug_assert states)",
     "E3: SmallVec -> Vec in BoundedLifetime / LifetimeEnv (verbatim otherwise); LifetimeEnv::get_bounds verbatim; fmt_lifetime and the error text abstract (E6)",
     "hir::Type re-declared (Opaque / Struct / other); link_lifetimes abstract functions of (path, type context)",
+    "E15: of TypeContext::validate only the statement range between `if failed {..}` and the return-type check is under contract (which inputs are validated); hir::Method / ParamSelf / Param / SelfType re-declared with the fields read there; From<SelfType> for Type abstract (Opaque -> Opaque, Struct -> Struct)",
 ]
-UNVERIFIED = {"C04": ["TypeContext::validate (the driver: which types are visited; elided-return check)", "self parameters are not validated by the real code (observation)"],
+UNVERIFIED = {"C04": ["the rest of TypeContext::validate (which types/methods are visited; elided-return check; return-type check through with_contained_types)"],
               "C05": ["TypeContext::validate driver"], "C15": []}
